@@ -261,18 +261,19 @@ enum AggregateState {
     Count(i64),
     /// Count distinct state (count, seen values).
     CountDistinct(i64, HashSet<HashableValue>),
-    /// Sum state (integer).
-    SumInt(i64),
+    /// Sum state (integer). Accumulated in 128 bits, so that intermediate sums
+    /// outside the i64 range do not disturb a total that fits.
+    SumInt(i128),
     /// Sum distinct state (integer, seen values).
-    SumIntDistinct(i64, HashSet<HashableValue>),
+    SumIntDistinct(i128, HashSet<HashableValue>),
     /// Sum state (float).
     SumFloat(f64),
     /// Sum distinct state (float, seen values).
     SumFloatDistinct(f64, HashSet<HashableValue>),
-    /// Average state (sum, count).
-    Avg(f64, i64),
-    /// Average distinct state (sum, count, seen values).
-    AvgDistinct(f64, i64, HashSet<HashableValue>),
+    /// Average state (exact sum of the integer inputs, sum of the other numeric inputs, count).
+    Avg(i128, f64, i64),
+    /// Average distinct state (integer sum, float sum, count, seen values).
+    AvgDistinct(i128, f64, i64, HashSet<HashableValue>),
     /// Min state.
     Min(Option<Value>),
     /// Max state.
@@ -307,8 +308,10 @@ impl AggregateState {
             }
             (AggregateFunction::Sum, false) => AggregateState::SumInt(0),
             (AggregateFunction::Sum, true) => AggregateState::SumIntDistinct(0, HashSet::new()),
-            (AggregateFunction::Avg, false) => AggregateState::Avg(0.0, 0),
-            (AggregateFunction::Avg, true) => AggregateState::AvgDistinct(0.0, 0, HashSet::new()),
+            (AggregateFunction::Avg, false) => AggregateState::Avg(0, 0.0, 0),
+            (AggregateFunction::Avg, true) => {
+                AggregateState::AvgDistinct(0, 0.0, 0, HashSet::new())
+            }
             (AggregateFunction::Min, _) => AggregateState::Min(None), // MIN/MAX don't need distinct
             (AggregateFunction::Max, _) => AggregateState::Max(None),
             (AggregateFunction::First, _) => AggregateState::First(None),
@@ -355,12 +358,8 @@ impl AggregateState {
             }
             AggregateState::SumInt(sum) => {
                 if let Some(Value::Int64(v)) = value {
-                    // An integer sum that leaves the i64 range continues as a float
-                    // sum instead of overflowing
-                    match sum.checked_add(v) {
-                        Some(s) => *sum = s,
-                        None => *self = AggregateState::SumFloat(*sum as f64 + v as f64),
-                    }
+                    // Exact: 2^64 addends of 64 bits fit in 128 bits
+                    *sum += i128::from(v);
                 } else if let Some(Value::Float64(v)) = value {
                     // Convert to float sum
                     *self = AggregateState::SumFloat(*sum as f64 + v);
@@ -376,16 +375,7 @@ impl AggregateState {
                     let hashable = HashableValue::from(v);
                     if seen.insert(hashable) {
                         if let Value::Int64(i) = v {
-                            match sum.checked_add(*i) {
-                                Some(s) => *sum = s,
-                                None => {
-                                    let seen_clone = seen.clone();
-                                    *self = AggregateState::SumFloatDistinct(
-                                        *sum as f64 + *i as f64,
-                                        seen_clone,
-                                    );
-                                }
-                            }
+                            *sum += i128::from(*i);
                         } else if let Value::Float64(f) = v {
                             // Convert to float distinct
                             let seen_clone = seen.clone();
@@ -416,22 +406,29 @@ impl AggregateState {
                     }
                 }
             }
-            AggregateState::Avg(sum, count) => {
-                if let Some(ref v) = value
+            AggregateState::Avg(int_sum, float_sum, count) => {
+                if let Some(Value::Int64(i)) = value {
+                    // Integers are summed exactly and converted once, at the end
+                    *int_sum += i128::from(i);
+                    *count += 1;
+                } else if let Some(ref v) = value
                     && let Some(num) = value_to_f64(v)
                 {
-                    *sum += num;
+                    *float_sum += num;
                     *count += 1;
                 }
             }
-            AggregateState::AvgDistinct(sum, count, seen) => {
+            AggregateState::AvgDistinct(int_sum, float_sum, count, seen) => {
                 if let Some(ref v) = value {
                     let hashable = HashableValue::from(v);
-                    if seen.insert(hashable)
-                        && let Some(num) = value_to_f64(v)
-                    {
-                        *sum += num;
-                        *count += 1;
+                    if seen.insert(hashable) {
+                        if let Value::Int64(i) = v {
+                            *int_sum += i128::from(*i);
+                            *count += 1;
+                        } else if let Some(num) = value_to_f64(v) {
+                            *float_sum += num;
+                            *count += 1;
+                        }
                     }
                 }
             }
@@ -513,16 +510,21 @@ impl AggregateState {
                 Value::Int64(*count)
             }
             AggregateState::SumInt(sum) | AggregateState::SumIntDistinct(sum, _) => {
-                Value::Int64(*sum)
+                // The integer total when it fits, otherwise the nearest float
+                match i64::try_from(*sum) {
+                    Ok(total) => Value::Int64(total),
+                    Err(_) => Value::Float64(*sum as f64),
+                }
             }
             AggregateState::SumFloat(sum) | AggregateState::SumFloatDistinct(sum, _) => {
                 Value::Float64(*sum)
             }
-            AggregateState::Avg(sum, count) | AggregateState::AvgDistinct(sum, count, _) => {
+            AggregateState::Avg(int_sum, float_sum, count)
+            | AggregateState::AvgDistinct(int_sum, float_sum, count, _) => {
                 if *count == 0 {
                     Value::Null
                 } else {
-                    Value::Float64(*sum / *count as f64)
+                    Value::Float64((*int_sum as f64 + *float_sum) / *count as f64)
                 }
             }
             AggregateState::Min(min) => min.clone().unwrap_or(Value::Null),
@@ -1468,5 +1470,58 @@ mod tests {
         // Population stdev of single value is 0
         let stdev = result.column(0).unwrap().get_float64(0).unwrap();
         assert!((stdev - 0.0).abs() < 0.01);
+    }
+
+    fn int_column_chunk(values: &[i64]) -> DataChunk {
+        let mut builder = DataChunkBuilder::new(&[LogicalType::Int64]);
+        for v in values {
+            builder.column_mut(0).unwrap().push_int64(*v);
+            builder.advance_row();
+        }
+        builder.finish()
+    }
+
+    #[test]
+    fn test_sum_is_exact_across_intermediate_overflow() {
+        // MAX + 1 leaves the i64 range, the total MAX - 4 does not
+        let mock = MockOperator::new(vec![int_column_chunk(&[i64::MAX, 1, -5])]);
+        let mut agg = SimpleAggregateOperator::new(
+            Box::new(mock),
+            vec![AggregateExpr::sum(0)],
+            vec![LogicalType::Any],
+        );
+        let result = agg.next().unwrap().unwrap();
+        assert_eq!(
+            result.column(0).unwrap().get_value(0),
+            Some(Value::Int64(i64::MAX - 4))
+        );
+
+        // A total outside the range is returned as the nearest float
+        let mock = MockOperator::new(vec![int_column_chunk(&[i64::MAX, i64::MAX])]);
+        let mut agg = SimpleAggregateOperator::new(
+            Box::new(mock),
+            vec![AggregateExpr::sum(0)],
+            vec![LogicalType::Any],
+        );
+        let result = agg.next().unwrap().unwrap();
+        assert_eq!(
+            result.column(0).unwrap().get_value(0),
+            Some(Value::Float64(2.0 * i64::MAX as f64))
+        );
+    }
+
+    #[test]
+    fn test_avg_of_integers_divides_the_exact_sum() {
+        // A running float sum would lose both ones: 2^53 + 1 + 1 stays 2^53
+        let big = 1i64 << 53;
+        let mock = MockOperator::new(vec![int_column_chunk(&[big, 1, 1])]);
+        let mut agg = SimpleAggregateOperator::new(
+            Box::new(mock),
+            vec![AggregateExpr::avg(0)],
+            vec![LogicalType::Float64],
+        );
+        let result = agg.next().unwrap().unwrap();
+        let avg = result.column(0).unwrap().get_float64(0).unwrap();
+        assert_eq!(avg, (big + 2) as f64 / 3.0);
     }
 }
